@@ -314,6 +314,13 @@ func (e *Engine) decodeRune(st *State, s *Term) (*Term, *Term) {
 	st.Assume(Implies(And(Gt(n, Int(0)), Lt(b0, Int(0x80))), And(Eq(w, Int(1)), Eq(r, b0))))
 	hi := e.langs.HighBytesPlus()
 	st.Assume(Implies(And(Gt(n, Int(0)), Ge(b0, Int(0x80))), e.inL(Substr(s, Int(0), w), hi)))
+	if e.langs.Has("UTF8_VALID") {
+		// on well-formed UTF-8 the decoder consumes exactly one encoded scalar value: the width is RuneLen of the
+		// rune, re-encoding gives back the consumed bytes, the rest is well-formed again
+		valid := e.inL(s, "UTF8_VALID")
+		st.Assume(Implies(And(valid, Gt(n, Int(0))), And(Eq(w, runeLen(r)), Eq(App("utf8.encode", SStr, r), Substr(s, Int(0), w)),
+			e.inL(Substr(s, w, n), "UTF8_VALID"))))
+	}
 	e.trusted["std:unicode/utf8.DecodeRuneInString"] = true
 	return r, w
 }
